@@ -72,6 +72,19 @@ var bodies = []body{
 		}
 		return "", false
 	}},
+	// the key/index keeps counting iterations, whatever ended the earlier ones
+	{"<% if (v == t) { continue } %><%= i %>:<%= v %>,", func(i, v, t int) (string, bool) {
+		if v == t {
+			return "", false
+		}
+		return itoa(i) + ":" + itoa(v) + ",", false
+	}},
+	{"<%= i %>;<% if (i == 0) { continue } %><%= i %>:<%= v %>,<% if (v == t) { break } %>", func(i, v, t int) (string, bool) {
+		if i == 0 {
+			return "0;", false
+		}
+		return itoa(i) + ";" + itoa(i) + ":" + itoa(v) + ",", v == t
+	}},
 	// a statement in the same tag after the control statement's block
 	{"<% if (v == t) { break } let w = v %><%= w %>,", func(i, v, t int) (string, bool) {
 		if v == t {
